@@ -189,6 +189,16 @@ func (ex *Exec) verifySpecLemma(c *Contract, pkg *types.Package, anyFn *ssa.Func
 func (ex *Exec) verifyFunc(fn *ssa.Function, c *Contract) {
 	ex.top, ex.topC = fn, c
 	ex.started = time.Now()
+	defer func() {
+		if r := recover(); r != nil {
+			if _, ok := r.(termTooBig); ok {
+				ex.errors = append(ex.errors, fmt.Sprintf("%s: term size budget exceeded (a loop needs an invariant?)", funcKey(fn)))
+				ex.aborted = true
+				return
+			}
+			panic(r)
+		}
+	}()
 	frameStack = nil
 	st := newState(ex)
 	st.declare("alloc0", SortInt)
